@@ -89,6 +89,16 @@ def shard(args):
         seen.add(raw)
         cname = bind.cls_name(m)
         acc.inc('evaluations', 2)
+        if len(raw) > 253:
+            # not expressible as one PDU: whatever the library does with it, it must not emit more than 253 bytes
+            try:
+                got = bind.pdu_bytes(bind.to_obj(m))
+            except Exception:   # noqa
+                got = b''
+            if len(got) > 253:
+                acc.violation('C01/%s/enc/oversize' % cname, dict(cls=cname, dir='enc', side=side, pdu=raw.hex()),
+                              'encoded PDU of %d bytes (maximum 253)' % len(got), cname)
+            continue
         r = check_enc(m, side)
         if r:
             acc.violation('C01/%s/enc/%s' % (cname, r[0]), dict(cls=cname, dir='enc', side=side, pdu=raw.hex()),
